@@ -5,7 +5,9 @@
    or a field of the two structs that concurrent runs share through the session
    (HermesSession, FilePool), with every site inside a function body that can change it:
    assignment (also through an index/field/dereference rooted at the variable), ++/--,
-   address-taking, delete(), call of a pointer-receiver method; for the struct fields also
+   address-taking, delete(), call of a pointer-receiver method (or of any method when the type
+   comes from an import and is unknown to the translator), declaration with a type of package
+   sync or sync/atomic (KSyncType); for the struct fields also
    every read.  Each site records the enclosing function and whether it lies between
    <x>.mux.Lock() and the matching non-deferred Unlock() of that function.
 
@@ -19,7 +21,7 @@ From Coq Require Import List Bool String Arith.
 Import ListNotations.
 Local Open Scope string_scope.
 
-Inductive kind := KAssign | KIncDec | KAddr | KDelete | KPtrCall (method : string) | KRead.
+Inductive kind := KAssign | KIncDec | KAddr | KDelete | KPtrCall (method : string) | KSyncType | KRead.
 
 Record site := Site { skind : kind; sfunc : string; slocked : bool }.
 Record entry := Entry { ename : string; esites : list site }.
